@@ -47,19 +47,44 @@ def c07_r2(ctx):
     # KeyedFold: `ready` is filled from accumulators.drain() only
     kn = facts.method(KFOLD, 'next', trait=OP)
     ksym = q.sym(facts, kn)
-    ext = [(bi, t) for bi, t in kn.calls() if (t['callee'].get('path') or '') == 'std::iter::Extend::extend' and 'ready' in render(strip(ksym.operand(t['args'][0])))]
-    pushes = [(bi, t) for bi, t in kn.calls() if (t['callee'].get('path') or '').endswith('Vec::<T, A>::push') and 'ready' in render(strip(ksym.operand(t['args'][0])))]
-    ctx.inst('KeyedFold::next|ready', {'extend': [render(strip(ksym.operand(t['args'][1])))[:120] for _, t in ext], 'push': len(pushes)})
-    if len(ext) != 1 or 'drain(&self.accumulators)' not in render(strip(ksym.operand(ext[0][1]['args'][1]))) or pushes:
-        ctx.viol('%s|results-source' % kn.path, kn.at,
-                 'KeyedFold::next must fill its result list only from self.accumulators.drain() (one result per key per iteration)', None)
-    # process_item: one accumulator per key: entry(key) vacant -> init.clone()
-    pi = facts.method(KFOLD, 'process_item')
-    psym = q.sym(facts, pi)
-    ent = [render(strip(psym.operand(t['args'][1]))) for bi, t in pi.calls() if (t['callee'].get('path') or '').endswith('::entry')]
-    ctx.inst('KeyedFold::process_item|entry', {'entry keys': ent})
-    if ent != ['key']:
-        ctx.viol('%s|entry-key' % pi.path, pi.at, 'KeyedFold::process_item must look the accumulator up by the element\'s own key (found %s)' % ent, None)
+    def sources(term):
+        """rendered alternatives of a value: a multiply-assigned local is replaced by the values of its definitions (one level)"""
+        t_ = strip(term)
+        if t_ and t_[0] == 'phi':
+            out = []
+            for (db, ds) in kn.defs().get(t_[1], []):
+                node = kn.def_node((db, ds))
+                if ds != 'T':
+                    out.append(render(strip(ksym.rvalue(node['rv']))))
+                else:
+                    out.append('%s(%s)' % (node['callee'].get('path'), ', '.join(render(strip(ksym.operand(a_))) for a_ in node['args'])))
+            return out or [render(t_)]
+        return [render(t_)]
+    fills = []
+    for bi, t in kn.calls():
+        p_ = t['callee'].get('path') or ''
+        if (p_ == 'std::iter::Extend::extend' or p_.rsplit('::', 1)[-1] in ('push', 'push_back', 'insert', 'append')) and t['args'] \
+                and render(strip(ksym.operand(t['args'][0]))).endswith('self.ready') and len(t['args']) > 1:
+            fills.append((bi, t, sources(ksym.operand(t['args'][1]))))
+    ctx.inst('KeyedFold::next|ready', {'filled by': [(t['callee']['path'].rsplit('::', 1)[-1], src[:2]) for _, t, src in fills]})
+    if not fills:
+        ctx.viol('%s|results-source' % kn.path, kn.at, 'KeyedFold::next never fills its result list', None)
+    for bi, t, src in fills:
+        if not all('drain(&self.accumulators)' in x for x in src):
+            ctx.viol('%s|results-source' % kn.path, t['at'],
+                     'KeyedFold::next must fill its result list only from self.accumulators.drain() (one result per key per iteration); '
+                     'found %s' % [x[:80] for x in src], None)
+    # one accumulator per key: the map is indexed by the key half of the element, the fold gets the value half of the same element
+    ent = [(t, render(strip(ksym.operand(t['args'][1])))) for bi, t in kn.calls()
+           if (t['callee'].get('path') or '').endswith('::entry') and render(strip(ksym.operand(t['args'][0]))).endswith('self.accumulators')]
+    ctx.inst('KeyedFold|entry', {'entry keys': [k[:100] for _, k in ent], 'helpers inlined': [x.rsplit('::', 1)[1] for x in getattr(kn, 'inlined_from', [])]})
+    if not ent:
+        raise AnchorMissing('KeyedFold::next (helpers inlined) never calls entry() on self.accumulators')
+    for t, k in ent:
+        kk = k.replace('Clone::clone(&', '').rstrip(')')
+        if 'into_kv(' not in k or not kk.endswith('.0'):
+            ctx.viol('%s|entry-key' % kn.path, t['at'],
+                     'KeyedFold must look the accumulator up by the key half of the element (into_kv(..).0), found `%s`' % k[:100], None)
 
 
 @rule('C07', 'R3', 'the timestamp of an aggregation result is the maximum input timestamp')
